@@ -1,6 +1,8 @@
 From Coq Require Extraction ExtrOcamlBasic.
 From RdpV Require Import Base Msg LayoutsGlobal LayoutsConnect Link Tpkt Global BerYasna Connect ConnectRun ClientPdus Flow.
 From RdpV Require Import Rc4 Md5 Md4 Hmac Utf Ntlm NtlmSeal DerRead CsspGate CsspGateExec StrictPdu FlowRun RefSequence.
+From RdpV Require Import RefNlmp RefNlmpSeal Der RefCredssp FlowNla FlowNlaRun.
 Extraction Language OCaml.
 Extraction "../ocaml/flow/model.ml" flow_impl mkFcfg mkCfg mkCsspEnv ntlm_new ntlm_from_hash md4 hmac_md5 strict_parse
-  replies expected_kinds mkServer mkRound frame_kind.
+  replies expected_kinds mkServer mkRound frame_kind
+  nla_cssp_env mkNla md5 cssp_serve cssp_reply1 cssp_reply2 mkCsspServer mkAccount mkChal.
